@@ -523,6 +523,26 @@ def replay(rp):
         return 0 if r == exp else 1
     res = case_benchmark(case)
     bad = False
+    ja = res.get("jac_audit") or {}
+    if ja.get("fails"):
+        print("Jacobian handed to the implicit candidate differs from the derivative of the integrated right-hand side:", json.dumps(ja["fails"][0]))
+        bad = True
+    T_ = float(case["indict"]["options"]["sim_time"])
+    for st_ in case["indict"].get("stimuli", []):
+        if st_["type"] == "list":
+            want_t = [float(x) for x in st_["list"].split() if float(x) <= T_]
+        elif st_["type"] == "regular":
+            per = 1.0 / float(st_["rate"])
+            want_t = [k_ * per for k_ in range(1, int(T_ / per) + 1) if k_ * per <= T_]
+        else:
+            continue
+        for r in res["runs"]:
+            for v_ in st_["variables"]:
+                got_t = (r["trains"][0] if r["trains"] else {}).get(v_.replace("'", "__d"), [])
+                lost = [x for x in want_t if not any(abs(x - y) <= 1e-9 * max(1.0, abs(x)) for y in got_t)]
+                if lost:
+                    print("specified but not delivered to", v_, ":", lost[:5])
+                    bad = True
     for r in res["runs"]:
         print("names", r["names"], "recs", r["recs"], "error", r["error"], "trains equal:", len(r["trains"]) == 2 and r["trains"][0] == r["trains"][1])
         bad |= not (len(r["trains"]) == 2 and r["trains"][0] == r["trains"][1])
